@@ -362,7 +362,7 @@ static Outcome runStartup(const KV& c)
             o.cls("history_bitwise_equal");
     }
     // (iv) discretisation-level accuracy of the start (>= 1 start-up cycle): compare with the converged solution's error
-    if (cfg.fmg_its >= 1 && GMGPolarVerifAccess::exact(*s) != nullptr && cfg.problem != 3 && !(cfg.geometry == 2 && cfg.alpha == 0)) {
+    if (cfg.fmg_its >= 1 && GMGPolarVerifAccess::exact(*s) != nullptr && cfg.problem != 3) {
         const ExactSolution* ex = GMGPolarVerifAccess::exact(*s);
         const PolarGrid& g      = s->grid();
         double estart = 0;
